@@ -182,6 +182,26 @@ theorem afterDisconnect_eq (s : Sys) : afterDisconnect s = s.toWriter.all := by
   | none => simp [drainQueue_eq, Writer.all, h]
   | some r => simp [step, Writer.step, h, drainQueue_eq, Writer.all]
 
+theorem take_self_iff {α : Type} (l : List α) (n : Nat) : l.take n = l ↔ l.length ≤ n :=
+  ⟨fun h => by have := congrArg List.length h; simp [List.length_take] at this; omega, fun h => List.take_of_length_le h⟩
+
+/-- producer steps touch neither the table nor the row the consumer holds -/
+theorem prods_keep_db (l : List Exchange) (s : Sys) :
+    (exec s (l.map fun _ => Choice.prod)).db = s.db ∧ (exec s (l.map fun _ => Choice.prod)).inflight = s.inflight := by
+  induction l generalizing s with
+  | nil => simp [exec]
+  | cons e es ih =>
+    simp only [List.map_cons, exec, List.foldl_cons]
+    have := ih (step s .prod)
+    simp only [exec] at this
+    rw [this.1, this.2]
+    simp only [step]
+    split
+    · simp
+    · split
+      · simp
+      · simp only [logStep]; split <;> simp [Writer.put]
+
 /-! ### the invariant -/
 
 /-- committed ++ in flight ++ queued = the rows of the exchanges performed so far, in order; the client-side
